@@ -457,7 +457,8 @@ def run(ctx):
     from rv import freshq
     qnames = [n for n, _ in queries(F) if n.split(':')[0] in ('hist_bins', 'hist_bins1', 'density2d', 'logicle-params', 'selection_std',
                                                                'selection_std-logicle', 'high_low', 'range()', 'stats.median', 'to_rfi-range', 'logicle-inverse',
-                                                               'clustering_gmm', 'selection_std-spread')]
+                                                               'clustering_gmm', 'selection_std-spread', 'channels', 'resolution',
+                                                               'amp_type', 'voltage', 'labels', 'text', 'acq_time', 'time_step', 'start')]
     for cid, rng in ctx.cases([('fresh', r) for r in range(2 if ctx.tier == 'quick' else 24)]):
         mon.cid = cid
         # A and B share resolution / display parameters where a sloppy cache key would, but differ in what matters
@@ -468,6 +469,9 @@ def run(ctx):
         else:
             specA = zoo.int_spec(rng, n=60, d=3, res=1024, all_lin=True)
             specB = zoo.int_spec(rng, n=60, d=3, res=262144, all_lin=True)
+        # keyword spellings that a stateful parser could treat differently depending on what it saw before
+        specA['extra'] = [(k, v) for k, v in specA.get('extra', []) if k not in ('$DATE', '$BTIM')] + [('$DATE', '98-May-19'), ('$BTIM', '10:00:00.50')]
+        specB['extra'] = [(k, v) for k, v in specB.get('extra', []) if k not in ('$DATE', '$BTIM')] + [('$DATE', '19-May-15'), ('$BTIM', '11:02:03:30')]
         pa, pb = os.path.join(ctx.tmpdir, 'fresh_a.fcs'), os.path.join(ctx.tmpdir, 'fresh_b.fcs')
         sa = zoo.write_and_load(F, specA, pa)
         freshq.answers(F, sa, qnames)                       # earlier activity of this process, on another sample
